@@ -43,6 +43,9 @@ type cmd struct {
 	acked bool
 	dropped bool // still queued when Stop(true) was called: cancelled and never carried out
 	cleared bool // a Stop(true) came after the call: its future may legitimately be cancelled
+	rejected bool // the broker answered its SUBSCRIBE with a failure return code
+	pid      packet.ID // packet id of the SUBSCRIBE that carried the command (0 = not seen yet)
+	pconn    int       // connection on which it was seen
 }
 
 type c17w struct {
@@ -60,6 +63,7 @@ type c17w struct {
 	pending   []packet.Generic      // requests not yet answered (withhold mode)
 	withhold  bool
 	failNextSuback bool
+	lastWasCommand bool // the SUBSCRIBE being answered is a command packet, not the resubscription
 	firstAfterConnack bool
 	order     []string // command packets in the order they reached the broker (all connections)
 	evname    string
@@ -77,6 +81,14 @@ func (s *c17w) answer(pkt packet.Generic) {
 	case *packet.Subscribe:
 		sa := packet.NewSuback()
 		sa.ID = p.ID
+		if s.failNextSuback {
+			// the command this SUBSCRIBE carried (matched by packet id on this connection; the resubscription carries none)
+			for _, c := range s.cmds {
+				if c.kind == "sub" && c.pid == p.ID && c.pconn == s.seenConns && c.pid != 0 {
+					c.rejected = true
+				}
+			}
+		}
 		for _, sub := range p.Subscriptions {
 			if s.failNextSuback {
 				sa.ReturnCodes = append(sa.ReturnCodes, packet.QOSFailure)
@@ -140,9 +152,18 @@ func (s *c17w) pump() string {
 				if s.firstAfterConnack {
 					// the resubscription: exactly the reference set as of the commands dispatched so far, sorted
 					s.firstAfterConnack = false
+					s.lastWasCommand = false
 					s.checkResubscribe(p)
 				} else {
+					s.lastWasCommand = true
 					s.order = append(s.order, "sub:"+p.Subscriptions[0].Topic)
+					for _, c := range s.cmds {
+						// commands are dispatched first-in first-out: the first subscribe call for the topic not yet seen
+						if c.kind == "sub" && c.topic == p.Subscriptions[0].Topic && c.pid == 0 && !c.dropped {
+							c.pid, c.pconn = p.ID, s.seenConns
+							break
+						}
+					}
 				}
 			case *packet.Unsubscribe:
 				s.firstAfterConnack = false
@@ -277,6 +298,12 @@ func (s *c17w) check() {
 		}
 		if allSeen && !s.tableExplained() {
 			s.x.Failf("subscriptions-reestablished", "table-differs", "online and idle after %s: the broker holds [%s] for this connection, the subscribe/unsubscribe calls made so far give [%s]", s.evname, subsStr(s.subs), subsStr(s.effectiveRef(nil)))
+		}
+	}
+	// a subscription the broker refused: the caller learns about it - the future resolves (with an error), it does not stay pending
+	for _, c := range s.cmds {
+		if c.rejected && c.w != nil && !c.w.resolved && !s.withhold {
+			s.x.Failf("futures-resolve", "rejected-subscribe-future-pending", "Subscribe(%s): the broker answered with a failure return code, the client processed it, yet the future is still unresolved after %s", c.topic, s.evname)
 		}
 	}
 	// futures: completed only when acknowledged
